@@ -77,6 +77,9 @@ func check(c Case, st *rig.Stats) error {
 	for i, op := range c.Ops {
 		liveBefore := s.LiveParsed()
 		res := s.Apply(op)
+		if v := s.Complaint(); v != nil {
+			return v
+		}
 		if res.Removal {
 			removedSomething = true
 		}
